@@ -28,6 +28,7 @@ RULE = ("part 1: histories h over a 10-symbol alphabet {create(f2003), create(f2
         "(create; ops) vs session B (same, failing parses deleted) must give identical results for the remaining "
         "parses. non-trivial = a history with >=1 parse before the observed one; distinct by SHA-1 of (history, s, x)")
 ASSUMPTIONS = ["the reference process imports the same /repo/src", "the standard is process-global: a parse runs under the standard created last"]
+ENUM_CASES = {"quick": lambda n: int(n * 0.6), "thorough": lambda n: int(n * 0.6)}
 DECIDING_MONITORS = ("observed_parses", "failing_parses_checked")
 EXHAUSTIVE = {"quick": True, "thorough": True, "note": "exhaustive for part 1 over the 10-symbol alphabet up to the stated length; random beyond"}
 
@@ -83,6 +84,20 @@ def probes():
             invalid.append(mutate.mutate_text(base, r, 1))
         _PROBES["valid"] = valid
         _PROBES["invalid"] = invalid
+        # sources that use exactly one F2008-only feature: valid under f2008, to be rejected under f2003
+        # whatever was created or parsed before
+        from .c17 import F08_SNIPPETS
+
+        f08 = []
+        for name in sorted(F08_SNIPPETS):
+            kind, text = F08_SNIPPETS[name]
+            if kind == "unit":
+                f08.append(text)
+            elif kind == "spec":
+                f08.append("subroutine vf_h(vf_a)\n" + text + "\n  vf_a = 1\nend subroutine vf_h\n")
+            else:
+                f08.append("subroutine vf_h(vf_a)\n  open (unit = 10, file = 'a.txt')\n" + text + "\nend subroutine vf_h\n")
+        _PROBES["f08"] = f08
     return _PROBES
 
 
@@ -221,10 +236,12 @@ def worker_finish():
 
 # ----------------------------------------------------------------- cases
 ALPHABET = [("create", "f2003"), ("create", "f2008"), ("parse", "valid", 0), ("parse", "valid", 4), ("parse", "valid", 6),
-            ("parse", "invalid", 0), ("parse", "invalid", 1), ("parse", "invalid", 2), ("parse", "invalid", 4),
-            ("parse", "invalid", 9)]
+            ("parse", "invalid", 0), ("parse", "invalid", 1), ("parse", "invalid", 2), ("parse", "f08", 11),
+            ("parse", "f08", 1)]
 FINALS = [("f2003", "valid", 0, {}), ("f2003", "valid", 1, {}), ("f2008", "valid", 4, {}), ("f2003", "valid", 3, {}),
-          ("f2003", "invalid", 4, {}), ("f2003", "valid", 5, {}), ("f2008", "valid", 6, {"ignore_comments": False})]
+          ("f2003", "invalid", 4, {}), ("f2003", "valid", 5, {}), ("f2008", "valid", 6, {"ignore_comments": False}),
+          ("f2003", "f08", 11, {}), ("f2003", "f08", 1, {}), ("f2008", "f08", 11, {}), ("f2003", "f08", 6, {}),
+          ("f2003", "f08", 0, {}), ("f2003", "f08", 4, {}), ("f2008", "f08", 3, {})]
 
 
 def n_enum(maxlen):
@@ -354,7 +371,7 @@ def check(payload):
                     hist = enum_history(j, payload["maxlen"])
                     if hist is None:
                         break
-                    finals = [FINALS[(j + k) % len(FINALS)] for k in range(2)]
+                    finals = [FINALS[(j + k * 5) % len(FINALS)] for k in range(3)]
                     vs = after_history(hist, pr, finals, mons, tally)
                     mons["histories"] += 1
                     add(vs)
@@ -368,15 +385,17 @@ def check(payload):
                     c = r.random()
                     if c < 0.25:
                         hist.append(("create", r.choice(["f2003", "f2008"])))
-                    elif c < 0.6:
+                    elif c < 0.5:
                         hist.append(("parse", "valid", r.randrange(len(pr["valid"]))))
+                    elif c < 0.65:
+                        hist.append(("parse", "f08", r.randrange(len(pr["f08"]))))
                     else:
                         hist.append(("parse", "invalid", r.randrange(len(pr["invalid"]))))
                 if hist[0][0] != "create" and r.random() < 0.8:
                     hist.insert(0, ("create", r.choice(["f2003", "f2008"])))
                 finals = []
-                for _ in range(2):
-                    kind = "valid" if r.random() < 0.75 else "invalid"
+                for _ in range(3):
+                    kind = r.choice(["valid", "valid", "valid", "invalid", "f08", "f08"])
                     finals.append((r.choice(["f2003", "f2008"]), kind, r.randrange(len(pr[kind])),
                                    r.choice([{}, {}, {"ignore_comments": False}])))
                 vs = after_history(hist, pr, finals, mons, tally)
